@@ -207,6 +207,17 @@ var scenarios = []scenario{
 		w.f.Get("/n/{x}", h).Name("n")
 		return w
 	}},
+	{Name: "same-static-route-through-the-shortcut", Build: func(n int) *world {
+		w := newWorld(planFor(n, func(t int) []reqSpec { return []reqSpec{{"GET", "/s", nil}} }))
+		w.f.Get("/s", func(c flamego.Context) string {
+			sched.Point()
+			w.own(c)
+			w.note("params=%s", fmtParams(c.Params()))
+			return "ok " + c.Param("route")
+		})
+		w.f.Get("/{p}", func(c flamego.Context) string { return "other" })
+		return w
+	}},
 	{Name: "regex+matchall+optional-backtracking", Build: func(n int) *world {
 		paths := []string{"/a/1/y", "/a/1/2/z", "/a", "/a/b7/x"}
 		w := newWorld(planFor(n, func(t int) []reqSpec { return []reqSpec{{"GET", paths[t%4], nil}} }))
